@@ -1246,7 +1246,9 @@ fn do_extras(out: &mut impl std::io::Write) {
                 "main.txt",
                 "{% for x in [[[]],[]] recursive %}[{% macro m(l, a) %}({{ l(a) }}){% endmacro %}{{ m(loop, x) }}]{% endfor %}Z",
             )],
-            "[([()])][()]Z",
+            // since 08f57de the engine refuses to re-enter a loop that is not running in the calling
+            // context (the model's assumption about `CallFunction` on loop objects, now enforced)
+            "!error",
         ),
         (
             // a failing include inside a block rendered (and forgiven) 80 times: the include's
